@@ -278,6 +278,11 @@ def run(r) -> None:
         for xr in (X_RANGES if not quick else [X_RANGES[(sum(shape) + r.seed) % 3]]):
             for dt in dts:
                 basis.append(dict(dim=3, shape=shape, x_range=xr, dtype=dt))
+    # very small and very large domain lengths (absolute tolerances / offsets that do not scale with the domain)
+    for shape in ((4, 6), (7, 5), (3, 4, 5), (5, 2, 4)):
+        for xr in (1e-3, 1e-6, 1e3):
+            for dt in dts:
+                basis.append(dict(dim=len(shape), shape=shape, x_range=xr, dtype=dt))
     basis.sort(key=lambda p: -int(np.prod(p["shape"])) ** 2)
     r.run_cases("basis", "basis", basis)
     depth = 3 if quick else 5
@@ -292,7 +297,7 @@ def run(r) -> None:
     r.bounds = {
         "shapes_2d": f"{{{s2.start}..{s2.stop - 1}}}^2" + (" + (7,6),(6,7)" if quick else ""),
         "shapes_3d": f"{{{s3.start}..{s3.stop - 1}}}^3" + (" + (4,3,5),(5,4,2)" if quick else ""),
-        "x_range": X_RANGES, "dtypes": dts, "history_depth": depth,
+        "x_range": X_RANGES + [1e-3, 1e-6, 1e3], "dtypes": dts, "history_depth": depth,
         "history_alphabet": "solve(e_first), solve(-3 e_last), solve(1e6*dense), solve(0), vector solve with one zero component (3-D), poison(doubled|fourier|convolution buffer) with NaN and 1e30; solution target never cleared between solves",
     }
     r.extra["rule"] = (
